@@ -929,14 +929,31 @@ fn gen_skel_any(rng: &mut Rng, out: &mut dyn Write, n: usize) {
                 }
             }
         }
-        let tb_len = g.tb.len();
-
         // objects: 1 = root, the others in random order
         let n_skel = if plain { 1 } else { g.rng.range(1, 3) as usize };
         let n_extra = if plain { 0 } else { g.rng.below(4) as usize };
-        let nobjs = 2 + n_skel + n_extra;
+        // boundary of the reader's length guard (`array_len > remaining input`): the last object of the file
+        // ends with a STRUCT array whose elements store nothing; 1..8 elements against the 2..8 bytes that follow
+        let edge = !plain && g.rng.chance(1, 12);
+        let mut edge_type = 0;
+        if edge {
+            let cands = g.structy_types(usize::MAX);
+            let cls = g.tb[*g.rng.pick(&cands)].name.clone();
+            let name = g.fresh("xg");
+            let mname = g.fresh("xga");
+            g.tb.push(HType {
+                name,
+                version: 0,
+                parent: None,
+                members: vec![HMember { name: mname, ty: 0x19, tuple: 0, cls }],
+                structy: false,
+            });
+            edge_type = g.tb.len() - 1;
+        }
+        let tb_len = g.tb.len();
+        let nobjs = 2 + n_skel + n_extra + edge as usize;
         g.nobjs = nobjs;
-        let mut slots: Vec<usize> = (2..=nobjs).collect();
+        let mut slots: Vec<usize> = (2..=nobjs - edge as usize).collect();
         for k in (1..slots.len()).rev() {
             let j = g.rng.below(k as u64 + 1) as usize;
             slots.swap(k, j);
@@ -1026,6 +1043,14 @@ fn gen_skel_any(rng: &mut Rng, out: &mut dyn Write, n: usize) {
                 g.fields(t, &[])
             };
             objs[no] = Some((t, f));
+        }
+
+        if edge {
+            let cls = g.tb[edge_type].members[0].cls.clone();
+            let ct = g.logical_type(&cls).unwrap();
+            let ncols = all_members(&g.tb, ct).len();
+            let n = g.rng.range(1, 8) as usize;
+            objs[nobjs] = Some((edge_type, vec![HVal::Structs(n, vec![HVal::Absent; ncols])]));
         }
 
         // emission order of the type declarations
